@@ -570,8 +570,13 @@ class IArr(IdxND):
     # ---- reductions
     def sum(self, axis=None, keepdims=False):
         if axis is None:
+            if self.ndim == 0:
+                return self
             if self.ndim != 1:
-                raise Unsupported("full sum of a matrix")
+                r = self        # sum over every axis = iterated sums over the last one
+                while r.ndim > 0:
+                    r = r.sum(axis=r.ndim - 1)
+                return r
             axis = 0
         ax = axis if axis >= 0 else self.ndim + axis
         n = self.shape[ax]
